@@ -388,6 +388,8 @@ def gen_ers_world(rng, stats=None, force=None):
                 faults["delete_pods"] = rng.sample(pods_names, rng.randint(1, len(pods_names)))
         if rng.random() < 0.2:
             faults["status"] = True
+        if rng.random() < 0.15:
+            faults["list_fail"] = [rng.choice(["Node", "Pod", "ExtendedDaemonsetSetting"])]
         if rng.random() < 0.2:
             faults["patch_pods"] = ["*"]
             pods_names = [o["metadata"]["name"] for o in objs if o["kind"] == "Pod"]
@@ -527,7 +529,8 @@ def gen_eds_world(rng, stats=None, force=None):
     ops = []
     faults = None
     if rng.random() < 0.1 and not force.get("no_faults"):
-        faults = rng.choice([{"status": True}, {"update": True}, {"rs_delete": ["*"]}, {"rs_create": True}])
+        faults = rng.choice([{"status": True}, {"update": True}, {"rs_delete": ["*"]}, {"rs_create": True},
+                             {"list_fail": ["ExtendedDaemonSetReplicaSet"]}])
         if "rs_delete" in faults:
             faults = {"rs_delete": [r["metadata"]["name"] for r in rss]}
     ops.append(K.reconcile("eds", NS, EDS, faults))
